@@ -260,14 +260,16 @@ pub fn ecpoint(p: &ECPoint) -> Value {
     json!({"point":sl(p.point)})
 }
 pub fn ecparams(p: &ECParameters) -> Value {
-    let content = match &p.params_content {
+    json!({"ct":p.curve_type.0,"content":eccontent(&p.params_content)})
+}
+pub fn eccontent(c: &ECParametersContent) -> Value {
+    match c {
         ECParametersContent::NamedGroup(g) => json!({"t":"NamedGroup","g":g.0}),
         ECParametersContent::ExplicitPrime(e) => json!({"t":"ExplicitPrime","p":sl(e.prime_p),"a":sl(e.curve.a),"b":sl(e.curve.b),
             "base":sl(e.base.point),"order":sl(e.order),"cofactor":sl(e.cofactor)}),
         #[allow(unreachable_patterns)]
         _ => json!({"t":"variant-unknown-to-the-specification"}),
-    };
-    json!({"ct":p.curve_type.0,"content":content})
+    }
 }
 pub fn ecdh(p: &ServerECDHParams) -> Value {
     json!({"params":ecparams(&p.curve_params),"public":sl(p.public.point)})
